@@ -108,6 +108,25 @@ def oracle_c13(c, run):
     chosen = None
     stats = {'decisions': 0, 'multi_level_decisions': 0, 'max_levels': 0}
     log = run.log
+    # third clause, restated on the taps: "a transmission in progress is never aborted in favour of a later, more urgent arrival" - between
+    # the start of a transmission and the departure of that packet no other transmission starts
+    cur, arrived_at = None, {}
+    for ev, t, p in log:
+        if ev == 'arr':
+            arrived_at[id(p)] = t
+        elif ev == 'dep' and cur is not None and p is cur[1]:
+            cur = None
+        elif ev == 'start':
+            if cur is not None and p is not cur[1]:
+                t0, p0 = cur
+                ta = arrived_at.get(id(p))
+                if ta is not None and ta >= t0 and prio.get(p.flow_id, 0) > prio.get(p0.flow_id, 0):
+                    fails.append(fail(f'sp: the transmission of packet {p0.packet_id} (flow {p0.flow_id}, priority {prio.get(p0.flow_id)}, size {p0.size}) started at t={t0} '
+                                      f'and was due to end at {t0 + p0.size * 8.0 / c["rate"]}; at t={t}, before that packet left, the transmission of packet {p.packet_id} '
+                                      f'(flow {p.flow_id}, priority {prio.get(p.flow_id)}), which arrived later (t={ta}), was started: a transmission in progress was given up '
+                                      f'for a later, more urgent arrival', 'sp-transmission-aborted'))
+                    break
+            cur = (t, p)
     for idx, (ev, t, p) in enumerate(log):
         if ev == 'arr':
             waiting.append(p)
